@@ -30,8 +30,10 @@ inductive It where
                                          -- the `for` statement makes a NEW iterator whenever it is re-entered
   | ensure (xs : List Atom)              -- `_ensure(result)` for an expression that produced a list
   | forNew (var : Str) (e : Expr) (src : It) (rest : List Dir)
-  | forNext (var : Str) (items : List Atom) (body : List TEv) (rest : List Dir)
-  | forRun (var : Str) (items : List Atom) (body : List TEv) (rest : List Dir) (inner : It)
+  | forNext (var : Str) (items : List Atom) (scope : Frame) (body : List TEv) (rest : List Dir)
+  | forRun (var : Str) (items : List Atom) (scope : Frame) (body : List TEv) (rest : List Dir) (inner : It)
+                                         -- `scope`: the ONE dict ForDirective pushes for every item; what was
+                                         -- written into it while it was `frames[0]` is still there next time
   | withNew (binds : List (Str × Expr)) (src : It) (rest : List Dir)
   | popAfter (inner : It)                -- py:with / i18n:domain / i18n:ctxt running: `ctxt.pop()` at the end
   | chooseNew (e : Option Expr) (src : It) (rest : List Dir)
@@ -180,19 +182,22 @@ def pull (h : Heap) : Nat → St → It → PullRes
         | some items =>
           match remaining h st.ph src with
           | none => ⟨st, .dead, .err .unmodelled⟩
-          | some body => pull h fuel st (.forNext var items body rest)
-    | .forNext _ [] _ _ => ⟨st, .dead, .done⟩
-    | .forNext var (x :: xs) body rest =>
-      let c1 := st.ctx.push [(var, .atom x)]
+          | some body => pull h fuel st (.forNext var items [] body rest)
+    | .forNext _ [] _ _ _ => ⟨st, .dead, .done⟩
+    | .forNext var (x :: xs) scope body rest =>
+      -- `assign(scope, item); ctxt.push(scope)`
+      let c1 := st.ctx.push (Frame.set scope var (.atom x))
       match applyDirs h st.ph c1 (.lst body) rest with
       | .error er => ⟨{ st with ctx := c1 }, .dead, .err er⟩
-      | .ok (c2, inner) => pull h fuel { st with ctx := c2 } (.forRun var xs body rest inner)
-    | .forRun var xs body rest inner =>
+      | .ok (c2, inner) => pull h fuel { st with ctx := c2 } (.forRun var xs scope body rest inner)
+    | .forRun var xs scope body rest inner =>
       let r := pull h fuel st inner
       match r.out with
-      | .item t => ⟨r.st, .forRun var xs body rest r.it, .item t⟩
+      | .item t => ⟨r.st, .forRun var xs scope body rest r.it, .item t⟩
       | .err er => ⟨r.st, .dead, .err er⟩
-      | .done => pull h fuel { r.st with ctx := r.st.ctx.pop } (.forNext var xs body rest)
+      | .done =>
+        -- `ctxt.pop()`: the frame that comes off is the scope dict with whatever was stored in it meanwhile
+        pull h fuel { r.st with ctx := r.st.ctx.pop } (.forNext var xs (r.st.ctx.frames.headD scope) body rest)
     | .withNew binds src rest =>
       match evalBinds (st.ctx.push []) binds with
       | .error (c', er) => ⟨{ st with ctx := c' }, .dead, .err er⟩
